@@ -6,7 +6,7 @@
    Parametric in the float type F.  Float facts are Section hypotheses of the one theorem that needs them
    (C08_min_max_order_independent): flt is irreflexive and transitive; on non-NaN values it is a strict total order
    whose incomparability is feqb.  parse_le / fmt_le (float(str), floatToGoString) are uninterpreted. *)
-From V Require Import lib.PyBase model.Multiproc model.MultiprocSpec proofs.MultiprocProofs.
+From V Require Import lib.PyBase model.Multiproc model.MultiprocSpec proofs.MultiprocProofs proofs.MultiprocLeProofs.
 From Coq Require Import Permutation.
 Open Scope N_scope.
 
@@ -206,6 +206,36 @@ Theorem C08_mark_dead_exact :
     In n (mark_dead pid dir) <-> In n dir /\ ~ exists m, In m LIVE_MODES /\ n = gauge_fname m pid.
 Proof. exact mark_dead_spec. Qed.
 Print Assumptions C08_mark_dead_exact.
+
+(* `le` is a bucket label for HISTOGRAM families only (Histogram alone reserves the name; Counter, Summary and Gauge accept
+   a user label called le): the accumulation dispatches on the family type first, so for any family that is neither a gauge
+   nor a histogram every series - keyed by the sample name and the FULL label tuple, a label named le with any value
+   included; float() is never applied to it - is reported exactly once and none is dropped. *)
+Theorem C08_le_is_a_bucket_label_of_histograms_only :
+  forall (F : Type) (fzero : F) (fadd : F -> F -> F) (flt feqb : F -> F -> bool) (parse_le : str -> F) (fmt_le : F -> str)
+         (m : metric F) (k : skey),
+    str_eqb (m_typ F m) S_gauge = false -> str_eqb (m_typ F m) S_histogram = false ->
+    NoDup (map fst (accumulate F fzero fadd flt feqb parse_le fmt_le m))
+    /\ (d_find skey_eqb (accumulate F fzero fadd flt feqb parse_le fmt_le m) k <> None
+        <-> In k (map (full_key F) (m_samples F m))).
+Proof. exact plain_family_series. Qed.
+Print Assumptions C08_le_is_a_bucket_label_of_histograms_only.
+
+(* non-vacuity: a counter and a summary whose label is called le, with a value float() rejects and two spellings of one
+   number: three separate series, summed per series over the two files; parse_le is never consulted (it maps everything
+   to 0 here: had the samples gone through the bucket table they would have been merged and lost) *)
+Example C08_user_le_example :
+  let k (v : str) := mkKey (s2l "c") (s2l "c_total") [(S_le, v)] (s2l "h") in
+  let q := mkKey (s2l "s") (s2l "s_count") [(S_le, s2l "abc"); (s2l "z", s2l "x")] (s2l "h") in
+  let c1 := mkFile Z (s2l "counter") [] [] [(k (s2l "abc"), (3%Z, 0%Z)); (k (s2l "1"), (1%Z, 0%Z))] in
+  let c2 := mkFile Z (s2l "counter") [] [] [(k (s2l "1.0"), (5%Z, 0%Z)); (k (s2l "abc"), (4%Z, 0%Z))] in
+  let s1 := mkFile Z (s2l "summary") [] [] [(q, (2%Z, 0%Z))] in
+  merge Z 0%Z Z.add Z.ltb Z.eqb (fun _ => 0%Z) (fun _ => []) [c1; s1; c2]
+  = [(s2l "c", s2l "h", s2l "counter", [((s2l "c_total", [(S_le, s2l "abc")]), 7%Z);
+                                         ((s2l "c_total", [(S_le, s2l "1")]), 1%Z);
+                                         ((s2l "c_total", [(S_le, s2l "1.0")]), 5%Z)]);
+     (s2l "s", s2l "h", s2l "summary", [((s2l "s_count", [(S_le, s2l "abc"); (s2l "z", s2l "x")]), 2%Z)])].
+Proof. vm_compute. reflexivity. Qed.
 
 (* non-vacuity (F = Z, exact arithmetic): two files of a `max` gauge and a counter; max(-1, 5) = 5 whatever the order,
    the counter sums over both pids, and marking pid 2 dead removes only its livesum file *)
